@@ -558,6 +558,8 @@ def gen_lifecycle(rng, nn, mounts=1, takeover=0.25, fine_gossip=False):
                     sc.retained[(sc.clients[c]["mount"], t_)] = ("01", q_, 0)
                 for x in sc.alive():
                     sc.ops.append(f"ackall {x}")
+                if r_ and not fine_gossip:
+                    sc.gossip()      # the oracle speaks about converged clusters only
             else:
                 sc.pub(c, rng.choice(["a/b", "w/t", "a"]), "01", rng.choice([0, 1]), rng.choice([0, 0, 1]))
         elif r < 0.75:
@@ -1103,8 +1105,29 @@ def corpus_ids_return_after_recipient_vanished(rng):
     return sc
 
 
+def corpus_setup_workers_survive_panics(rng):
+    """more connections than there are set-up workers (20) open with a first packet that makes the decoder panic; each is
+    closed, and the broker still accepts and serves the next client"""
+    sc = Scenario(rng, 1, 1)
+    w1 = sc.connect(node=0)
+    sc.sub(w1, [("wit", 0)])
+    w2 = sc.connect(node=0)
+    for k in range(24):
+        sc.k += 1
+        h = f"h{sc.k}"
+        sc.emit(f"open {h} 0", {}, "open")
+        sc.emit(f"raw {h} {rng.choice(['108080808001', '32020000', '108080808001'])}", {h: ["CLOSED"]}, "connection-left-open-after-malformed-first-packet")
+    late = sc.connect(node=0)
+    sc.sub(late, [("wit", 0)])
+    sc.mid += 1
+    sc.emit(f"pub {w2} wit 7a 0 0 0 {sc.mid}", {w1: [pubstr("wit", "7a", 0, 0, 0)], late: [pubstr("wit", "7a", 0, 0, 0)]}, "witness-stalled")
+    sc.check_state()
+    return sc
+
+
 def corpus(rng, names):
-    table = {"same-client-id-overlapping-qos2": corpus_same_client_id_overlapping_qos2,
+    table = {"setup-workers-survive-panics": corpus_setup_workers_survive_panics,
+             "same-client-id-overlapping-qos2": corpus_same_client_id_overlapping_qos2,
              "clear-before-publish-arrives": corpus_clear_before_publish_arrives,
              "ids-return-after-recipient-vanished": corpus_ids_return_after_recipient_vanished,
              "slow-qos2": corpus_slow_qos2_then_next, "first-message": corpus_first_message,
